@@ -1,9 +1,75 @@
 /-
 C04 — range membership equals the interval-set meaning of the vers constraints.
-Only property theorems live here.
+
+Only property theorems live here (helper lemmas: `Univers/Vers/Contains*.lean`,
+`Univers/Vers/DenoteCongr.lean`).  The model is `containsVersion` (`contains_version` of
+version_constraint.py, FIXED CODE for "!="-only ranges); the spec is `denote`.
 -/
-import Univers.Vers.Spec
+import Univers.Vers.ContainsMain
+import Univers.Vers.DenoteCongr
 
 namespace Univers.C04
+
+open Univers Std
+
+variable {V : Type} {o : VOps V} {cmp : V → V → Ordering}
+
+/-- For every well-formed version-sorted constraint list (any length, any scheme whose six
+operators are the ones induced by a transitive three-way comparison) and every version, the
+membership test returns — without raising — exactly the interval-set meaning. -/
+theorem contains_eq_denote [TransCmp cmp] (h : Lawful o cmp) (cs : List (Con V))
+    (hwf : WFSorted cmp cs) (x : V) :
+    containsVersion o x cs = .ok (denote cmp cs x) := by
+  rcases hwf with rfl | ⟨hns, hs, _, halt⟩
+  · simp [containsVersion, Con.sat, denote]
+  · match cs, hns, hs, halt with
+    | [c], hns, _, _ =>
+      cases c with
+      | star => simp [noStar, Con.isStar] at hns
+      | mk k v => simp [containsVersion, h.sat_eq_holds, denote_single]
+    | [], hns, hs, halt =>
+      exact containsMulti_eq_denote h [] (by simp) hns hs halt x
+    | a :: b :: rest, hns, hs, halt =>
+      exact containsMulti_eq_denote h (a :: b :: rest) (by simp) hns hs halt x
+
+/-- the test never raises on a well-formed range -/
+theorem contains_never_raises [TransCmp cmp] (h : Lawful o cmp) (cs : List (Con V))
+    (hwf : WFSorted cmp cs) (x : V) : ∃ b, containsVersion o x cs = .ok b :=
+  ⟨_, contains_eq_denote h cs hwf x⟩
+
+/-- The answer depends only on how the tested version compares with the constraint versions. -/
+theorem contains_depends_only_on_order [TransCmp cmp] (h : Lawful o cmp) (cs : List (Con V))
+    (hwf : WFSorted cmp cs) (x y : V)
+    (hxy : ∀ k v, Con.mk k v ∈ cs → cmp x v = cmp y v) :
+    containsVersion o x cs = containsVersion o y cs := by
+  rw [contains_eq_denote h cs hwf x, contains_eq_denote h cs hwf y, denote_congr cs hxy]
+
+/-- '*' denotes everything. -/
+theorem star_contains_everything (x : V) : containsVersion o x [Con.star] = .ok true := rfl
+
+/-- a range made only of '!=' constraints denotes everything except those versions -/
+theorem ne_only_meaning (cs : List (Con V)) (hne : cs.all Con.isNe = true) (hcs : cs ≠ []) (x : V) :
+    denote cmp cs x = cs.all (fun c => !c.at cmp x) := by
+  match cs, hcs with
+  | [c], _ =>
+    cases c with
+    | star => simp [Con.isNe] at hne
+    | mk k v => simp [denote, hne]
+  | a :: b :: rest, _ => simp [denote, hne]
+
+/-! non-vacuity: concrete well-formed ranges over the integers meet the hypotheses -/
+
+def intCmp : Int → Int → Ordering := fun a b => compare a b
+
+instance : TransCmp intCmp := inferInstanceAs (TransCmp (fun a b : Int => compare a b))
+
+example : WFSorted intCmp [.mk .lt 1, .mk .ne 2, .mk .ge 3, .mk .ne 4, .mk .le 5, .mk .eq 7, .mk .gt 9] := by
+  refine Or.inr ⟨by decide, ?_, by decide, by decide⟩
+  simp [StrictSorted, intCmp]; decide
+
+example : containsVersion (opsOf intCmp)
+    4 [.mk .lt 1, .mk .ne 2, .mk .ge 3, .mk .ne 4, .mk .le 5, .mk .eq 7, .mk .gt 9] = .ok false := by rfl
+example : containsVersion (opsOf intCmp)
+    5 [.mk .lt 1, .mk .ne 2, .mk .ge 3, .mk .ne 4, .mk .le 5, .mk .eq 7, .mk .gt 9] = .ok true := by rfl
 
 end Univers.C04
